@@ -120,7 +120,7 @@ theorem spec_tr (T : Tr) (hinj : ∀ a b, T.frag a = T.frag b → a = b) (s : Sc
     simp only [SpecOf, Spec.variablesAreInputTypes]
     rw [forall_nodes_tr T d (fun n => ∀ v, n = Node.varDef v → ∃ t, typeFromAst s v.type = some t ∧ isInputTy s t = true)]
     refine forall_congr' fun m => forall_congr' fun _ => ?_
-    cases m <;> simp [Tr.node]
+    cases m <;> simp [Tr.node, Tr.varDef]
   · -- known fragment names
     simp only [SpecOf, Spec.knownFragmentNames]
     rw [forall_nodes_tr T d (fun n => ∀ name dirs, n = Node.spread name dirs → name ∈ Spec.fragNames (T.doc d))]
@@ -136,7 +136,7 @@ theorem spec_tr (T : Tr) (hinj : ∀ a b, T.frag a = T.frag b → a = b) (s : Sc
       (dirs.map (·.name)).Nodup)]
     refine forall_congr' fun m => forall_congr' fun _ => ?_
     have hcomp : ((fun x : Dir => x.name) ∘ T.dir) = fun x => x.name := rfl
-    cases m <;> simp [Tr.node, Spec.uniqueDirectivesPerLocation.Node.dirsOf?, hcomp]
+    cases m <;> simp [Tr.node, Tr.varDef, Spec.uniqueDirectivesPerLocation.Node.dirsOf?, hcomp]
   · -- unique argument names
     simp only [SpecOf, Spec.uniqueArgumentNames]
     rw [forall_nodes_tr T d (fun n => ∀ name args dirs hs, n = Node.field name args dirs hs → (args.map (·.name)).Nodup),
